@@ -1,4 +1,56 @@
+//! seqx — explicit-state op-sequence search on real objects next to a reference model.
+//!
+//! * C07: `actix_http::h1::Payload::create(false)` (sender, reader) pair — see `c07.rs`
+//! * C18: `actix_http::header::HeaderMap` — see `c18.rs`
+//!
+//! usage: `seqx C07|C18 --tier quick|thorough [--replay file]`
+
+mod c07;
+mod c18;
+
+use mc_core::bfs::StepErr;
+use std::panic::{catch_unwind, AssertUnwindSafe};
+
+/// Run `f`; a panic raised outside this crate (code under test, or std on its behalf) becomes a
+/// violation with clause "panic"; a panic inside this crate is a machinery error (exit 2).
+pub fn guarded<T>(f: impl FnOnce() -> T) -> Result<T, StepErr> {
+    match catch_unwind(AssertUnwindSafe(f)) {
+        Ok(v) => Ok(v),
+        Err(_) => {
+            let (loc, msg) = mc_core::explore::take_last_panic().unwrap_or_default();
+            if loc.contains("seqx/src") || loc.contains("mc-core/src") || msg.starts_with("MACHINERY") {
+                eprintln!("MACHINERY: harness panic at {loc}: {msg}");
+                std::process::exit(2);
+            }
+            // location without the checkout prefix, so the signature is the same for /repo and a scratch copy
+            let short = match loc.find("actix-http/") {
+                Some(i) => loc[i..].to_string(),
+                None => match loc.find("/library/") {
+                    Some(i) => format!("std{}", &loc[i..]),
+                    None => loc.clone(),
+                },
+            };
+            // line numbers move with unrelated edits: keep the file only
+            let file = short.split(':').next().unwrap_or(&short).to_string();
+            Err(StepErr {
+                clause: "panic".into(),
+                signature: format!("panic@{file}"),
+                what: format!("code under test panicked at {loc}: {}", msg.replace('\n', " ")),
+            })
+        }
+    }
+}
+
 fn main() {
-    eprintln!("MACHINERY: engine seqx is not built yet");
-    std::process::exit(2);
+    let args = mc_core::cli::parse();
+    mc_core::explore::install_panic_hook();
+    let code = match args.property.as_str() {
+        "C07" => c07::main(&args),
+        "C18" => c18::main(&args),
+        other => {
+            eprintln!("MACHINERY: engine seqx does not serve property {other}");
+            2
+        }
+    };
+    std::process::exit(code);
 }
